@@ -535,3 +535,23 @@ Proof.
   - destruct (o_date o); [ | reflexivity ]. rewrite H1.
     destruct (o_daily o) as [ | | r]; try reflexivity. exfalso. apply (H2 r). reflexivity.
 Qed.
+
+Lemma pair_decisions : forall (c : option currency) (q : Qc) (n : N),
+  load_decide c (Some q) = LKeep /\
+  load_decide (Some CAD) None = LKeep /\ load_decide None None = LKeep /\
+  load_decide (Some USD) None = LLoadUsd /\
+  load_decide (Some (OtherCur n)) None = LErr ENoAuto /\
+  valid_rate (Some CAD) None = inr (Some (CAD, 1%Qc)) /\
+  (q <> 1%Qc -> exists err, valid_rate (Some CAD) (Some q) = inl err) /\
+  valid_rate (Some (OtherCur n)) None = inl ECurrWithoutFx /\
+  ((0 < q)%Qc -> valid_rate (Some USD) (Some q) = inr (Some (USD, q))).
+Proof.
+  intros c q n.
+  split; [reflexivity | ]. split; [reflexivity | ]. split; [reflexivity | ].
+  split; [reflexivity | ]. split; [reflexivity | ]. split; [reflexivity | ].
+  split; [ | split; [reflexivity | ] ].
+  - intros Hq. unfold valid_rate. destruct (Qcltb 0%Qc q); [ | eexists; reflexivity ].
+    cbn [is_default andb]. destruct (Qceqb_spec q 1%Qc) as [E | NE]; [contradiction | ].
+    cbn [negb]. eexists; reflexivity.
+  - intros Hq. unfold valid_rate. destruct (Qcltb_spec 0%Qc q) as [P | NP]; [reflexivity | contradiction].
+Qed.
